@@ -180,6 +180,35 @@ func c29Routing(c *an.Ctx) {
 		rk, ok := c25RootCall(v, an.M("ipns", "Name", "RoutingKey"))
 		return rk, ok
 	}
+	// the Name whose routing key is used is the one handed in (or parsed), not one rebuilt from a peer ID that was
+	// converted locally from a string / bytes (e.g. from another textual form of the name): that is a different key
+	nameOK := func(rk *ssa.Call) bool {
+		if rk == nil {
+			return true
+		}
+		isID := func(t types.Type) bool { return an.TypeIs(t, c25Peer, "ID") }
+		for _, r := range an.Roots(an.Recv(rk), nil) {
+			nf, ok := an.IsCallTo(r, an.M("ipns", "", "NameFromPeer"))
+			if !ok || len(nf.Call.Args) != 1 {
+				continue
+			}
+			local := func(v ssa.Value) bool {
+				switch cv := v.(type) {
+				case *ssa.Convert:
+					return !isID(cv.X.Type())
+				case *ssa.ChangeType:
+					return !isID(cv.X.Type())
+				}
+				return false
+			}
+			for _, ir := range an.Roots(nf.Call.Args[0], &an.FlowOpts{StopAt: local}) {
+				if local(ir) {
+					return false
+				}
+			}
+		}
+		return true
+	}
 	nPut, nGet := 0, 0
 	for _, fn := range p.PkgFuncs(ns) {
 		for _, call := range an.AllCalls(fn) {
@@ -199,7 +228,7 @@ func c29Routing(c *an.Ctx) {
 				}
 				nPut++
 				rk, ok := isRoutingKey(cc.Args[1])
-				good := ok && an.OnNilEdgeOf(fn, mc, call)
+				good := ok && an.OnNilEdgeOf(fn, mc, call) && nameOK(rk)
 				c.Check(good, "O6", "R-SIB", name, "PutValue(string(name.RoutingKey()), Marshal(rec))", call.Pos(), "record put under the name's routing key on the nil edge of MarshalRecord",
 					"an IPNS record is put into the routing system under a key that is not string(name.RoutingKey()) ("+c25Desc(cc.Args[1])+"): the resolver, which searches name.RoutingKey(), never finds what was published")
 				_ = rk
@@ -218,7 +247,8 @@ func c29Routing(c *an.Ctx) {
 					continue
 				}
 				nGet++
-				_, ok := isRoutingKey(cc.Args[1])
+				grk, ok := isRoutingKey(cc.Args[1])
+				ok = ok && nameOK(grk)
 				c.Check(ok, "O6", "R-SIB", name, cc.Method.Name()+"(string(name.RoutingKey()))", call.Pos(), "record searched under the name's routing key",
 					"IPNS records are searched in the routing system under "+c25Desc(cc.Args[1])+", not under string(name.RoutingKey()), the key they are published under")
 			}
@@ -442,6 +472,54 @@ func c29CacheKeys(c *an.Ctx) {
 			"with the cache enabled every return is preceded by Add or Remove of the key",
 			"the cache write wrapper can return with the cache enabled without having replaced or removed the entry of its key (e.g. when the TTL is not positive): a value that must not be cached leaves the previous value cached, so a resolve right after such a publish returns the old value")
 	}
+	// ---- O5' the entry such a wrapper writes carries the wrapper's own value parameter: every path.Path-typed field of
+	// the stored entry roots in a path.Path parameter of the wrapper (not in the entry looked up before, a field, ...)
+	nEntry := 0
+	for _, s := range direct {
+		_, isParam := c25Root1(s.key).(*ssa.Parameter)
+		call, isCall := s.at.(ssa.CallInstruction)
+		if s.op != "write" || s.sink != "cache" || !isParam || !isCall || len(an.Args(call)) < 2 {
+			continue
+		}
+		w := s.fn
+		ld, ok := an.Args(call)[1].(*ssa.UnOp)
+		if !ok || ld.Op != token.MUL {
+			continue
+		}
+		tmp, ok := ld.X.(*ssa.Alloc)
+		if !ok {
+			continue
+		}
+		for _, r := range *tmp.Referrers() {
+			fa, isFA := r.(*ssa.FieldAddr)
+			if !isFA {
+				continue
+			}
+			fld, _ := an.FieldOf(fa)
+			if fld == nil || !an.TypeIs(fld.Type(), an.Mod+"/path", "Path") {
+				continue
+			}
+			for _, rr := range *fa.Referrers() {
+				st, isSt := rr.(*ssa.Store)
+				if !isSt || st.Addr != ssa.Value(fa) {
+					continue
+				}
+				nEntry++
+				good := true
+				var from []string
+				for _, root := range c29RootsF(st.Val, 0) {
+					prm, isP := root.(*ssa.Parameter)
+					if !isP || prm.Parent() != w || !an.TypeIs(prm.Type(), an.Mod+"/path", "Path") {
+						good = false
+					}
+					from = append(from, c25Desc(root))
+				}
+				c.Check(good && len(from) > 0, "O5", "R-FLOW", an.FuncName(w), "cache entry carries the value parameter", st.Pos(), "the entry written holds the wrapper's value parameter",
+					"the cache write wrapper stores an entry whose path is "+strings.Join(from, ", ")+" instead of its own value parameter: after a publish (or a fresh resolution) the cache keeps answering with a previous or unrelated value")
+			}
+		}
+	}
+	c.Min("O5 path fields of written cache entries", nEntry, 1)
 	// lift through wrappers: a key that is a parameter of its function is traced to the call sites
 	var origins []c29Site
 	var lift func(s c29Site, depth int)
@@ -935,6 +1013,55 @@ func c29Publisher(c *an.Ctx) {
 				}
 			}
 		}
+		// "no previous record" (nil, nil) is answered only where the datastore read reported not-found: any other read
+		// error must surface, otherwise the updater restarts the sequence at 0 over an existing record
+		{
+			var dsErrs []ssa.Value
+			for _, call := range an.AllCalls(gp) {
+				if ci := an.Callee(call); ci.Pkg == dsPkg && ci.Name == "Get" {
+					dsErrs = append(dsErrs, an.ErrResult(call)...)
+				}
+			}
+			isNotFound := func(v ssa.Value) bool {
+				u, ok := c25Root1(v).(*ssa.UnOp)
+				if !ok || u.Op != token.MUL {
+					return false
+				}
+				g, ok := u.X.(*ssa.Global)
+				return ok && g.Name() == "ErrNotFound" && g.Pkg != nil && g.Pkg.Pkg.Path() == dsPkg
+			}
+			nf := an.CondEdges(gp, func(atom ssa.Value) (bool, bool) {
+				switch x := atom.(type) {
+				case *ssa.BinOp:
+					if x.Op != token.EQL && x.Op != token.NEQ {
+						return false, false
+					}
+					if c25RootsIn(x.X, dsErrs) && isNotFound(x.Y) || c25RootsIn(x.Y, dsErrs) && isNotFound(x.X) {
+						return x.Op == token.EQL, x.Op == token.NEQ
+					}
+				case *ssa.Call:
+					if ci := an.Callee(x); ci.Pkg == "errors" && ci.Name == "Is" && len(x.Call.Args) == 2 && c25RootsIn(x.Call.Args[0], dsErrs) && isNotFound(x.Call.Args[1]) {
+						return true, false
+					}
+				}
+				return false, false
+			})
+			okNone, nNone := true, 0
+			at := gp.Pos()
+			for _, r := range an.Returns(gp) {
+				if len(r.Results) == 2 && an.IsNilConst(an.RetVal(r, 0)) && an.IsNilConst(an.RetVal(r, 1)) {
+					nNone++
+					if len(nf) == 0 || !an.GuardedBy(gp, nil, r, nf) {
+						okNone = false
+						at = r.Pos()
+					}
+				}
+			}
+			if len(dsErrs) > 0 && nNone > 0 {
+				c.Check(okNone, "O3", "R-DOM", an.FuncName(gp), "no previous record only on datastore not-found", at, "(nil, nil) is returned only on the ErrNotFound edge of the datastore read",
+					"GetPublished can answer 'no previous record' although the datastore read failed for another reason than not-found: the updater then treats an existing record as absent and publishes sequence 0 (or the explicit one unchecked), so the sequence number decreases")
+			}
+		}
 		c.Check(good && n > 0, "O3", "R-FLOW", an.FuncName(gp), "reads IpnsDsKey(name)", gp.Pos(), "previous record read under IpnsDsKey(name)", "GetPublished does not read the datastore under IpnsDsKey(name), the key updateRecord writes: the previous sequence is never found")
 	}
 }
@@ -1353,6 +1480,24 @@ func c29Resolve(c *an.Ctx) {
 	pathArg := rec.Call.Args[2]
 	fPath, parentCell := c28FieldRead(pathArg)
 	if fPath == nil || fPath.Name() != "Path" {
+		// the chain resolver's own input handed down again (a captured parameter): the next hop is never taken
+		own := false
+		for _, r := range c29RootsF(pathArg, 0) {
+			switch x := r.(type) {
+			case *ssa.Parameter:
+				own = true
+			case *ssa.FreeVar:
+				own = true
+			case *ssa.UnOp:
+				if _, isFV := x.X.(*ssa.FreeVar); isFV {
+					own = true
+				}
+			}
+		}
+		if own {
+			c.Bad("O4", "R-FLOW", name, "recursion resolves the path of the received result", rec.Pos(), "the recursive resolution is started on the chain resolver's own input instead of the path of the result just received: a name chain is never followed to its next hop (the same name is resolved until the depth limit)")
+			return
+		}
 		c.Problem("undecided: the recursive resolveAsync call does not resolve <result>.Path")
 		return
 	}
@@ -1908,6 +2053,32 @@ func c29ResolveOnce(c *an.Ctx) {
 		}
 		if good {
 			resolvable = append(resolvable, an.Result(cv, 0)...)
+		}
+	}
+	// the cache key constructed here names what is resolved: the canonicaliser is applied to the root segment
+	// (segments[1] of the input or of the resolvable path), the same component the resolvable path is built from
+	for _, g := range an.WithClosures(ro) {
+		for _, call := range an.AllCalls(g) {
+			cv := an.CallValue(call)
+			f := call.Common().StaticCallee()
+			if cv == nil || f == nil || f.Pkg == nil || f.Pkg.Pkg.Path() != an.Mod+"/"+ns || len(f.Params) != 1 || len(cv.Call.Args) != 1 {
+				continue
+			}
+			if bt, ok := f.Params[0].Type().Underlying().(*types.Basic); !ok || bt.Kind() != types.String {
+				continue
+			}
+			if okc, _ := c29Canonicalises(f); !okc {
+				continue
+			}
+			good := false
+			if s0, idx, ok := c27Indexed(c28Root(cv.Call.Args[0])); ok && c25IsInt(1)(idx) {
+				if sc, ok := c25RootCall(s0, an.M("", "", "Segments")); ok {
+					rv := an.Recv(sc)
+					good = c29ValsIn(rv, []ssa.Value{in}) || len(resolvable) > 0 && c29ValsIn(rv, resolvable)
+				}
+			}
+			c.Check(good, "O1", "R-SIB", name, "cache key built from the root segment that is resolved", cv.Pos(), "key = canonical(segments[1]) of the path being resolved",
+				"the cache key is built from "+c25Desc(cv.Call.Args[0])+", not from the root segment (segments[1]) of the path that is resolved: lookups and writes of different names share or miss entries, so a resolve can return another name's value or a stale one after publish")
 		}
 	}
 	c.Check(len(resolvable) > 0, "O4", "R-FLOW", name, "resolvable=/segments[0]/segments[1]", ro.Pos(), "the name resolved is namespace+root of the input", "resolveOnceAsync does not build the resolvable path from the first two segments of its input")
